@@ -41,7 +41,7 @@ PROBES = {'C17': 10, 'C04': 5, 'C03': 5, 'C08': 20, 'C07': 20}
 MIN_EVAL = {'quick': 400, 'thorough': 10000}
 REQUIRED_COUNTERS = ['cli_runs', 'idempotence_runs', 'subprocess_runs', 'multi_file', 'model:amr',
                      'model:noop', 'model:file', 'opt:reconfigure', 'opt:rearrange', 'opt:triples',
-                     'no_option_runs', 'messy_streams']
+                     'no_option_runs', 'messy_streams', 'crlf_files', 'repeated_file']
 AMR_ROLES = [':ARG0', ':ARG1', ':ARG2', ':mod', ':domain', ':op1', ':op2', ':op10', ':polarity', ':quant',
              ':name', ':consist-of', ':time', ':location', ':poss', ':beneficiary', ':role', ':foo',
              ':accompanier', ':age']
@@ -147,10 +147,10 @@ def oracle(ctx, kind, p):
         elif which == 3:
             mname, mflag = 'noop', ['--noop']
         else:
-            mname = 'mini'
+            mname = 'miniroot' if p['i'] % 2 else 'mini'
             mp = os.path.join(tmpdir, 'model.json')
             with open(mp, 'w') as fh:
-                json.dump(M.MINI, fh)
+                json.dump(M.get(mname)[3], fh)
             mflag = ['--model=' + mp]
         ctx.count('model:' + ('file' if which == 4 else mname))
         _, model, rm, _ = M.get(mname)
@@ -172,10 +172,12 @@ def oracle(ctx, kind, p):
         messy = p['i'] % 4 == 3
         if messy:
             ctx.count('messy_streams')
+        nodes_by_file = []
         for fi in range(max(1, nfiles)):
             trees = []
+            nodes_by_file.append([])
             for j in range(rng.randrange(0, 4)):
-                node = T.rand_tree(rng, rm, roles=AMR_ROLES if mname in ('amr', 'mini') else None,
+                node = T.rand_tree(rng, rm, roles=AMR_ROLES if mname in ('amr', 'mini', 'miniroot') else None,
                                    no_constants_like=like)
                 if not _trees.wellformed(node, rm):
                     continue
@@ -187,7 +189,7 @@ def oracle(ctx, kind, p):
                 if rng.random() < 0.2:
                     meta['snt'] = 'a  b ; (c)'
                 trees.append(Tree(node, metadata=meta))
-                nodes.append(node)
+                nodes_by_file[-1].append(node)
             texts_ = [penman.format(t, indent=rng.choice([None, -1, 2])) for t in trees]
             if messy:
                 import re as _re
@@ -205,11 +207,26 @@ def oracle(ctx, kind, p):
         argv = argv_of(o, mflag)
         files = []
         if nfiles:
+            crlf = p['i'] % 6 == 0 and not messy
             for fi, c in enumerate(chunks):
                 path = os.path.join(tmpdir, f'in{fi}.txt')
-                with open(path, 'w', encoding='utf-8') as fh:
-                    fh.write(c)
+                if crlf:
+                    # a CRLF (or CR) file, with an empty-valued metadata key: the same graphs
+                    c = ('# ::checked\n' + c) if c.strip() else c
+                    chunks[fi] = c
+                    with open(path, 'w', encoding='utf-8', newline='') as fh:
+                        fh.write(c.replace('\n', '\r\n' if p['i'] % 12 else '\r'))
+                    ctx.count('crlf_files')
+                else:
+                    with open(path, 'w', encoding='utf-8') as fh:
+                        fh.write(c)
                 files.append(path)
+            if nfiles >= 2 and p['i'] % 5 == 0:
+                # the same file named twice is read twice
+                files.append(files[0])
+                chunks.append(chunks[0])
+                nodes_by_file.append(nodes_by_file[0])
+                ctx.count('repeated_file')
             argv_full = argv + ['--encoding=utf-8'] + files
             stdin_text = None
             if nfiles > 1:
@@ -217,6 +234,7 @@ def oracle(ctx, kind, p):
         else:
             argv_full = argv
             stdin_text = chunks[0]
+        nodes = [nd for f_ in nodes_by_file for nd in f_]
         for k in ('reconfigure', 'rearrange', 'triples', 'make_variables', 'check'):
             if o[k]:
                 ctx.count('opt:' + k)
